@@ -59,7 +59,32 @@ def _h_to_bytes(interp, args, kwargs, st, node):
     return S(('to_bytes', term(a)), 'bytes')
 
 
+def _h_read_varint(interp, args, kwargs, st, node):
+    # read_varbyteint(stream): CompactSize read (C18.readers checks the reader itself)
+    if len(args) == 1 and isinstance(args[0], Stream):
+        stream = args[0]
+        p = stream.pos(st)
+        st.heap[stream.key] = S(('after-varint', term(p)), 'int')
+        stream.log.append((stream._ctx(interp), 'varint', None))
+        return S(('read-varint', term(p)), 'int')
+    return NotImplemented
+
+
+def _h_read_varint_return(interp, args, kwargs, st, node):
+    if len(args) == 1 and isinstance(args[0], Stream):
+        stream = args[0]
+        p = stream.pos(st)
+        st.heap[stream.key] = S(('after-varint', term(p)), 'int')
+        stream.log.append((stream._ctx(interp), 'varint', None))
+        r = S(('read-varint', term(p)), 'int')
+        raw = S(('raw-varint', term(p)), 'bytes')
+        return (r, raw)
+    return NotImplemented
+
+
 LAYOUT_HOOKS = {
+    'read_varbyteint': _h_read_varint,
+    'read_varbyteint_return': _h_read_varint_return,
     'int_to_varbyteint': _h_varint,
     'varstr': _h_varstr,
     'double_sha256': _h_hash('dsha256'),
@@ -74,6 +99,10 @@ class Stream(Model):
     def __init__(self, name='stream'):
         self.name = name
         self.key = ('stream-pos', name)
+        self.log = []        # program-order log of accesses: (loop context, kind, size term)  (shared by all copies)
+
+    def _ctx(self, interp):
+        return tuple(show(f.get('symbolic'))[:200] if f.get('symbolic') is not None else 'concrete' for f in interp.loop_stack)
 
     def term(self):
         return ('stream', self.name)
@@ -100,11 +129,10 @@ class Stream(Model):
                 return S(('read-rest', term(p)), 'bytes')
             n = args[0]
             st.heap[self.key] = interp.binop(_ADD, p, n)
-            trace = st.heap.get(('stream-trace', self.name), [])
-            r = S(('read', term(p), term(n)), 'bytes')
-            st.heap[('stream-trace', self.name)] = list(trace) + [r]
-            return r
+            self.log.append((self._ctx(interp), 'read', term(n)))
+            return S(('read', term(p), term(n)), 'bytes')
         if name == 'seek' and len(args) >= 1:
+            self.log.append((self._ctx(interp), 'seek', tuple(term(a) for a in args)))
             if len(args) == 2 and args[1] == 1:
                 st.heap[self.key] = interp.binop(_ADD, self.pos(st), args[0])
             else:
@@ -143,6 +171,10 @@ def normalize(t):
     rev(int2bytes(x,w,o)) = int2bytes(x,w,other o), arithmetic folded."""
     def f(x):
         if not isinstance(x, tuple) or not x:
+            return None
+        # (name, value) keyword pairs share the tuple representation: guard every rule by the arity of its operator
+        arity = {'rev': 2, 'bytes2int': 3, 'slice': 5, 'index': 3, 'int2bytes': 4}
+        if x[0] in arity and len(x) != arity[x[0]]:
             return None
         if x[0] == 'rev':
             y = x[1]
